@@ -101,6 +101,21 @@ pub fn run(tier: Tier) -> ! {
             }
         });
     }
+    // enriched alphabet at shorter length (low-byte look-alikes of the delimiters, non-ASCII
+    // whitespace, control characters, every UTF-8 length)
+    let enriched = ['a', ' ', '/', '\\', '-', '|', '\0', 'Ġ', 'į', 'Ŝ', 'ĭ', 'ż', '\u{3000}', '\t', '\n', 'é', 'あ', '𠀋'];
+    let es = crate::gen::strings(&enriched, 0, tier.pick(3, 4));
+    strings += es.len() as u64;
+    es.par_iter().for_each(|x| {
+        let x: String = x.iter().collect();
+        for kind in 0..3 {
+            chk.eval(3);
+            chk.nontrivial(1);
+            for (k, what) in totality_case(&w, kind, &x) {
+                chk.violation(k.clone(), what, json!({"mode": "totality", "kind": kind, "x": x, "sig": k}));
+            }
+        }
+    });
     chk.set("totality_strings", json!(strings));
     chk.set("totality_alphabet", json!("a あ space / \\ - | NUL"));
     chk.set("totality_max_len", json!(maxlen));
